@@ -724,3 +724,36 @@ def shape_norm(t: T) -> T:
             return T("mcall", "repeat", x.args[:3], {"axis": x.args[3]}, node=x.node)
         return x
     return rec(t)
+
+
+def none_true(g: T):
+    """If the condition `g` says "no entry of X is true", return X; else None.  Spellings: np.all(~X), (~X).all(), not X.any(), not np.any(X),
+    X.sum() == 0, np.count_nonzero(X) == 0, not X.sum(), np.all(np.logical_not(X)), np.all(X == False)."""
+    neg = False
+    while g.op == "not" or (g.op == "unary" and g.name == "Not"):
+        neg, g = not neg, g.args[0]
+
+    def arr_of(call):
+        a = [x for x in call.args if x.op != "free"]
+        return a[0] if a else None
+
+    def inverted(x):
+        if x is None:
+            return None
+        if x.op == "unary" and x.name == "Invert":
+            return x.args[0]
+        if x.op in ("mcall", "call") and x.name == "logical_not":
+            return arr_of(x)
+        if x.op == "cmp" and x.name == "==" and len(x.args) == 2 and any(a.op == "const" and a.name is False for a in x.args):
+            return next(a for a in x.args if not (a.op == "const" and a.name is False))
+        return None
+    if g.op == "mcall" and g.name == "all" and not neg:
+        return inverted(arr_of(g))
+    if g.op == "mcall" and g.name in ("any", "sum", "count_nonzero") and neg:
+        x = arr_of(g)
+        return x if x is not None and inverted(x) is None else None
+    if g.op == "cmp" and g.name == "==" and not neg and len(g.args) == 2 and any(a.op == "const" and a.name == 0 for a in g.args):
+        other = next(a for a in g.args if not (a.op == "const" and a.name == 0))
+        if other.op == "mcall" and other.name in ("sum", "count_nonzero"):
+            return arr_of(other)
+    return None
